@@ -44,6 +44,9 @@ def build_mutants(ctx, per_op):
         for f in q["funcs"]:
             if f["n"] == "main":
                 f["body"].insert(0, Println(S(MARK)))
+        if any(f["n"] == "t" for f in q["funcs"]) and not any(sh["fn"] == "t" for sh in q["shadows"]):
+            # a shadow block with content, so that the static rules are also exercised inside shadow blocks
+            q["shadows"].append({"fn": "t", "b": [Let("r", "int", Call("t", I(3))), Assert(Bin("==", V("r"), I(3)))]})
         for j, m in enumerate(mutants(q, rnd, per_op)):
             allm["%s.m%d" % (pid, j)] = m
     return sd, allm
